@@ -191,8 +191,16 @@ func runResponses(c *core.Ctx, k *counters) {
 		responseProduct(c, k, "base", baseA, baseD, baseP, baseV, nil)
 		return
 	}
-	fullA, fullD, fullP, fullV := acceptItems(true), designedItems(true), presetMenu().list(true), pick(allValues(), true)
-	c.Note("response_full_menus", fmt.Sprintf("accept %d, designed %d, preset %d, value %d", len(fullA), len(fullD), len(fullP), len(fullV)))
+	fullA, fullD, fullP := acceptItems(true), designedItems(true), presetMenu().list(true)
+	var fullV, deepV []valueSpec
+	for _, v := range pick(allValues(), true) {
+		if v.Deep {
+			deepV = append(deepV, v)
+		} else {
+			fullV = append(fullV, v)
+		}
+	}
+	c.Note("response_full_menus", fmt.Sprintf("accept %d, designed %d, preset %d, value %d (+ %d rarer error values explored in P4)", len(fullA), len(fullD), len(fullP), len(fullV), len(deepV)))
 	inBaseA := map[acceptItem]bool{}
 	for _, a := range baseA {
 		inBaseA[a] = true
@@ -219,6 +227,10 @@ func runResponses(c *core.Ctx, k *counters) {
 	}
 	responseProduct(c, k, "P3_fullAccept_x_fullDesigned_x_4Preset_x_3Value", fullA, fullD, p3P, p3V,
 		func(a acceptItem, d dz) bool { return inBaseA[a] || d.S == "" })
+	// P4: the rarer error values (texts unsupported_media_type / unicode, ServiceErrors wrapped twice,
+	// joined, built by NewServiceError, carrying a Field, an empty plain error) under the complete base
+	// product of the header menus (the quick product, which selects every encoder under every header relation).
+	responseProduct(c, k, "P4_baseAccept_x_baseDesigned_x_basePreset_x_rarerErrorValues", baseA, baseD, baseP, deepV, nil)
 }
 
 func prefix(p string, m map[string]int64) map[string]int64 {
@@ -354,6 +366,7 @@ func run(c *core.Ctx) {
 	if c.Thorough() {
 		c.Note("bounds", "thorough: union of three complete products over the full menus (systematic case/whitespace/parameter/q-order variants, all values, missing context keys): "+
 			"P1 base Accept x full designed x full pre-set x full values; P2 full Accept x absent designed x full pre-set x full values; P3 full Accept x full designed x 4 pre-sets x 3 values; "+
+			"P4 base Accept x base designed x base pre-set x the rarer error values (all 8 flag combinations x 4 texts x {direct, 6 ServiceError constructions} + plain errors, minus those already in the full values); "+
 			"request side: complete product of the full Content-Type menu x all bodies (incl. garbage) x 6 Accept values")
 	} else {
 		c.Note("bounds", "quick: complete product of the base menus (every class of the design's alphabet at least once) with one value per kind, and for error responses all 8 flag combinations x {full, empty} texts x {direct, ServiceError, wrapped ServiceError} + a plain error")
